@@ -380,7 +380,7 @@ def strategy(tier):
 
 
 def shards(tier, seed):
-    per = 600 if tier == 'thorough' else 150
+    per = 600 if tier == 'thorough' else 500
     return [{'shard': i, 'n': per} for i in range(16)]
 
 
